@@ -46,6 +46,31 @@ func invalidDoc(d model.Doc) bool {
 	return false
 }
 
+// unencodable: the value holds a time whose zone offset the binary encoding of
+// time.Time cannot express (a whole number of minutes equal to -1, or beyond 16
+// bits). Storing it may be refused.
+func unencodable(v interface{}) bool {
+	switch x := v.(type) {
+	case time.Time:
+		_, off := x.Zone()
+		q := off / 60
+		return q == -1 || q < -32768 || q > 32767
+	case map[string]interface{}:
+		for _, e := range x {
+			if unencodable(e) {
+				return true
+			}
+		}
+	case []interface{}:
+		for _, e := range x {
+			if unencodable(e) {
+				return true
+			}
+		}
+	}
+	return false
+}
+
 func hasGivenID(d model.Doc) bool {
 	v, ok := d["_id"]
 	if !ok {
@@ -131,6 +156,17 @@ func (e *Exec) stepInsert(op *Op, mc *model.Coll) {
 			want = "ErrDuplicateKey"
 		case bad:
 			want = "any"
+		}
+	}
+	for _, d := range docs {
+		if unencodable(map[string]interface{}(d)) {
+			e.probe("unencodable-value")
+			switch want {
+			case "":
+				want = "maybe"
+			case "ErrDuplicateKey":
+				want = "any" // which of the two reasons is reported is not specified
+			}
 		}
 	}
 
@@ -286,6 +322,8 @@ func (e *Exec) stepUpdateById(op *Op, mc *model.Coll) {
 			want = "ErrDocumentNotExist"
 		case invalidDoc(newDoc):
 			want = "any"
+		case unencodable(map[string]interface{}(newDoc)):
+			want = "maybe"
 		}
 	} else {
 		switch {
@@ -301,6 +339,9 @@ func (e *Exec) stepUpdateById(op *Op, mc *model.Coll) {
 			} else if newDoc["_id"] != op.ID {
 				idRewrite = true
 				e.probe("update-attempts-id-rewrite")
+			} else if unencodable(map[string]interface{}(newDoc)) {
+				want = "maybe"
+				e.probe("unencodable-value")
 			}
 		}
 	}
@@ -1198,6 +1239,15 @@ func (e *Exec) stepImport(op *Op) {
 			if !ok {
 				e.fail([]string{"C19"}, "C19/import-ids", fmt.Sprintf("%s: source _id %s is missing from the imported collection", what, id), nil)
 				return
+			}
+			if t, isT := g["_expiresAt"].(time.Time); isT {
+				// the expiration instant is the one field whose type the library prescribes:
+				// an import may give it back as the instant its exported text denotes
+				if txt, isS := wantDoc["_expiresAt"].(string); isS && t.Format(time.RFC3339Nano) == txt {
+					wantDoc = val.CloneMap(wantDoc)
+					wantDoc["_expiresAt"] = t
+					e.probe("import-expiring-document")
+				}
 			}
 			if val.Compare(wantDoc, g) != 0 {
 				e.fail([]string{"C19"}, "C19/import-values", fmt.Sprintf("%s: %s", what, describeDocDiff(id, wantDoc, g)), nil)
